@@ -34,6 +34,11 @@ def startsOk (lo hi : Nat) (mask : Nat → Bool) (starts : List Nat) : Bool :=
 def startsFeasOk (lo hi : Nat) (mask : Nat → Bool) (starts : List Nat) : Bool :=
   if starts.length ≤ feasible lo hi mask then starts.all mask else true
 
+/-- stronger demand met by rules that pick among the feasible nodes (OP after d560d2a): all forced
+starts are feasible as soon as ONE feasible start exists, whatever `k` -/
+def startsFeasStrongOk (lo hi : Nat) (mask : Nat → Bool) (starts : List Nat) : Bool :=
+  if 1 ≤ feasible lo hi mask then starts.all mask else true
+
 def startsDistinctOk (lo hi : Nat) (mask : Nat → Bool) (starts : List Nat) : Bool :=
   if starts.length ≤ feasible lo hi mask then nodup starts else true
 
